@@ -6,6 +6,22 @@ from roles import *
 from engine import AnchorLost
 
 
+# iterator adaptors / slice accessors that make an iteration range over less than the whole collection
+RESTRICTING = r"::(take|skip|filter|step_by|take_while|skip_while|nth|last|find|find_map|position|min\w*|max\w*|first|get|split_first|split_last|chunks\w*|windows)(::<.*>)?$"
+
+def closure_bodies_passed(body, t):
+    """closure bodies constructed as direct arguments of a call"""
+    out = []
+    for a in t["args"]:
+        l = operand_local(a)
+        if l is None:
+            continue
+        for kind, x, bb in body.prov.direct_producers(l):
+            if kind == "agg" and x["rv"].get("closure") in body.facts.bodies:
+                out.append(body.facts.view(x["rv"]["closure"]))
+    return out
+
+
 def const_val(op):
     return op["val"] if op["k"] == "const" else None
 
@@ -45,7 +61,14 @@ def kind_subregions(actor, R, msg_variant):
                 return True
             # `match kind {..}` on the variable bound to the message's field
             return origin_matches(edge_origin(actor, e), lambda o: o[0] == "field" and o[1] and o[1][-1] == "kind" and msg_variant in o[1], through_fields=False)
-        rk = actor.region(p, within=R)
+        # the split is a split of the *handler*: the test of the kind is the first thing the handler does (a `match kind` further down - say, inside a
+        # helper that picks a per-kind set - belongs to a handler that is generic in the kind)
+        def at_entry(l, e, p=p):
+            if not p(l, e):
+                return False
+            before = {x for x in R if x != e.src and actor.dominates(x, e.src)}
+            return not any(actor.term(x)["k"] == "call" and not _trivial_call(actor.term(x)) for x in before)
+        rk = actor.region(at_entry, within=R)
         if rk:
             out[k] = rk & R
     if not out:
@@ -73,6 +96,10 @@ def kind_subregions(actor, R, msg_variant):
     if not out:
         out["*"] = R
     return out
+
+
+def _trivial_call(t):
+    return bool(re.search(r"::(deref|deref_mut|as_ref|as_mut|borrow|borrow_mut|clone|into|from|unwrap|into_future|new_unchecked|get_context|poll|next|fuse)$", callee_base(t)))
 
 
 def msg_field_atoms(variant, field):
@@ -171,9 +198,11 @@ def fanout_fns(r, field):
     """helper methods that loop over `field` (requesters / dependencies) and call the send_to_actor role inside the loop"""
     fns = {r.fn_of(b).name for b in r.senders_to_actor()}
     out = []
-    for b in r.helper_methods():
-        if not b.coroutine:
+    for raw in r.helper_methods():
+        if not raw.coroutine:
             continue
+        # (the view of the method: the loop itself may sit in a generic `send_to_each(recipients, msg)` shared by both fan-outs and spliced in here)
+        b = r.V(raw)
         for (nbb, sbb, ne, se, blks, it_atoms) in for_loops(b):
             if atom_has_field(it_atoms, field, "TargetActorHelper") and calls_in(b, blks, lambda n: n in fns):
                 out.append(b)
@@ -512,7 +541,8 @@ def cond_len_eq_one(field, kind=None):
         if d[0] != "binop" or d[1] != "Eq":
             return False
         sides = [d[2], d[3]]
-        has_len = any(any(y[0] == "call" and y[1].endswith("::len") and y[2] and atom_has_field(y[2][0], field, "TargetActorHelper") and kind_ok(y[2][0]) for y in s if isinstance(y, tuple)) for s in sides)
+        has_len = any(any(y[0] == "call" and y[1].endswith("::len") and y[2] and atom_has_field(y[2][0], field, "TargetActorHelper") and
+                          (kind_ok(y[2][0]) or (len(y) > 4 and y[4] and atom_has_field(y[4][0], field, "TargetActorHelper") and kind_ok(y[4][0]))) for y in s if isinstance(y, tuple)) for s in sides)
         has_one = any(any(y[0] == "const" and y[1].startswith("1") for y in s if isinstance(y, tuple)) for s in sides)
         return has_len and has_one
     return p
